@@ -919,18 +919,33 @@ static void
 bigfirst_case(long idx, void *ctx)
 {
     (void)ctx;
-    int   userfill = (int)(idx % 2), k = (int)(idx / 2);
-    int   cfg[3] = {-7, k, userfill};
+    /* layout (C04 only): 0 contiguous, 1 deflate (not chunked; a second, partial write is not offered by that layout), 2 chunked */
+    static const char *LAY[] = {"contiguous", "deflate", "chunked 7 x 64"};
+    int   userfill = (int)(idx % 2), k = (int)(idx / 2 % NBIGFIRST), layout = (int)(idx / (2 * NBIGFIRST));
+    int   cfg[4] = {-7, k, userfill, layout};
     int32 dims[2] = {BIGFIRST[k].rows, BIGFIRST[k].cols}, row = BIGFIRST[k].row;
-    mc_set_config(cfg, 3, "first write far into a %dx%d int32 data set", (int)dims[0], (int)dims[1]);
-    mc_set_case("%dx%d int32, %s fill value, first write is row %d (byte offset %ld), then row 3", (int)dims[0], (int)dims[1], userfill ? "user" : "default", (int)row,
-                (long)row * dims[1] * 4);
+    mc_set_config(cfg, 4, "first write far into a %dx%d int32 data set", (int)dims[0], (int)dims[1]);
+    mc_set_case("%dx%d int32 (%s), %s fill value, first write is row %d (byte offset %ld)%s", (int)dims[0], (int)dims[1], LAY[layout], userfill ? "user" : "default", (int)row,
+                (long)row * dims[1] * 4, layout == 1 ? "" : ", then row 3");
     const char *path = "/vmem/c03big.hdf";
     vfs_remove_file(path);
     int32 sdid = SDstart(path, DFACC_CREATE), id = SDcreate(sdid, "big", DFNT_INT32, 2, dims);
     int32 fill = userfill ? -7 : FILL_LONG;
     if (userfill)
         SDsetfillvalue(id, &fill);
+    /* (the fill value of a chunked data set has to be set before the chunking) */
+    if (layout == 1) {
+        comp_info ci;
+        memset(&ci, 0, sizeof ci);
+        ci.deflate.level = 1;
+        SDsetcompress(id, COMP_CODE_DEFLATE, &ci);
+    }
+    if (layout == 2) {
+        HDF_CHUNK_DEF cd;
+        memset(&cd, 0, sizeof cd);
+        cd.chunk_lengths[0] = 7, cd.chunk_lengths[1] = 64;
+        SDsetchunk(id, cd, HDF_CHUNK);
+    }
     int32 *rowbuf = malloc(sizeof(int32) * (size_t)dims[1]), *all = malloc(sizeof(int32) * (size_t)dims[0] * (size_t)dims[1]);
     for (int j = 0; j < dims[1]; j++)
         rowbuf[j] = 100000 + j;
@@ -942,7 +957,7 @@ bigfirst_case(long idx, void *ctx)
     st[0] = 3;
     for (int j = 0; j < dims[1]; j++)
         rowbuf[j] = 200000 + j;
-    if (SDwritedata(id, st, NULL, cn, rowbuf) == FAIL)
+    if (layout != 1 && SDwritedata(id, st, NULL, cn, rowbuf) == FAIL)
         mc_violation("bigfirst:write-failed", "the second write (row 3) failed");
     for (int pass = 0; pass < 2; pass++) {
         if (pass == 1) {
@@ -962,7 +977,7 @@ bigfirst_case(long idx, void *ctx)
         long bad = 0, firstbad = -1;
         for (long r = 0; r < dims[0]; r++)
             for (long j = 0; j < dims[1]; j++) {
-                int32 want = r == row ? 100000 + (int32)j : r == 3 ? 200000 + (int32)j : fill;
+                int32 want = r == row ? 100000 + (int32)j : (r == 3 && layout != 1) ? 200000 + (int32)j : fill;
                 /* rows behind the first write were never reached by any fill pass: their content is only defined up to the
                    written row (the file ends there), the library supplies fill values */
                 if (all[r * dims[1] + j] != want) {
@@ -1093,7 +1108,7 @@ C03_main(const char *tier, const char *replay)
         if (mc_load_replay(replay, cfg, &ncfg, ops, &nops, 4) || ncfg < 3)
             return 2;
         if (cfg[0] == -7) {
-            bigfirst_case(cfg[1] * 2L + cfg[2], NULL);
+            bigfirst_case(cfg[1] * 2L + cfg[2] + (ncfg >= 4 ? 2L * NBIGFIRST * cfg[3] : 0), NULL);
             return 0;
         }
         if (cfg[0] == -5) {
@@ -1548,6 +1563,10 @@ C04_main(const char *tier, const char *replay)
             biglinked_case(cfg[1], NULL);
             return 0;
         }
+        if (cfg[0] == -7 && ncfg >= 4) {
+            bigfirst_case(cfg[1] * 2L + cfg[2] + 2L * NBIGFIRST * cfg[3], NULL);
+            return 0;
+        }
         if (cfg[0] == -6 && ncfg >= 7) {
             C09_grchunk_case(cfg[1] + 5L * ((cfg[2] == 3) + 2L * (cfg[3] + 2L * (cfg[4] + 3L * (cfg[5] + 3L * cfg[6])))), NULL);
             return 0;
@@ -1577,10 +1596,13 @@ C04_main(const char *tier, const char *replay)
     mc_round_begin("multi-record writes across linked-block tables");
     mc_foreach(12, biglinked_case, NULL, 1, 300);
     mc_round_end();
+    mc_round_begin("first write far into a large data set: contiguous, deflate and chunked layouts against the same array model");
+    mc_foreach(3L * 2 * NBIGFIRST, bigfirst_case, NULL, 1, 300);
+    mc_round_end();
     mc_round_begin("raster images: whole-chunk reads vs region reads, every interlace, three kinds of session");
     mc_foreach(360, C09_grchunk_case, NULL, 1, 300);
     mc_round_end();
-    mc_count("evaluations", mc_get("histories") + mc_get("chunks_read_whole") + 12 + 360);
+    mc_count("evaluations", mc_get("histories") + mc_get("chunks_read_whole") + 12 + 360 + mc_get("bigfirst_cases"));
     mc_rule("extents of rank 1 (1..5), rank 2 (2x2, 3x2, 2x3, 4x3) and rank 3 (2x3x2): contiguous baseline; chunked with EVERY chunk shape c_i in [1, n_i+1] "
             "(incl. shapes that do not divide the extent and chunks larger than it) x chunk-cache sizes x DD-block sizes; chunked+compressed and compressed "
             "(RLE, deflate, skipping-Huffman; more parameters in thorough); n-bit; external file at offset 0 and 5; unlimited dimension in linked blocks with "
